@@ -1241,6 +1241,11 @@ output_program_generation (OrcProgram *p, FILE *output, int is_inline)
       if (insn->flags) {
         REQUIRE(0,4,6,1);
       }
+      /* orc_program_append / append_ds carry one destination and at most
+       * two sources */
+      if (insn->opcode->dest_size[1] != 0 || insn->opcode->src_size[2] != 0) {
+        REQUIRE(0,4,6,1);
+      }
 
       if (p->vars[insn->src_args[1]].size != 0) {
         fprintf(output, "    orc_program_append (p, \"%s\", %s, %s, %s);\n",
@@ -1423,6 +1428,11 @@ output_code_test (OrcProgram *p, FILE *output)
     OrcInstruction *insn = p->insns + i;
     if (compat < ORC_VERSION(0,4,6,1)) {
       if (insn->flags) {
+        REQUIRE(0,4,6,1);
+      }
+      /* orc_program_append / append_ds carry one destination and at most
+       * two sources */
+      if (insn->opcode->dest_size[1] != 0 || insn->opcode->src_size[2] != 0) {
         REQUIRE(0,4,6,1);
       }
 
